@@ -242,6 +242,128 @@ func pkgVars(repo, dir string) []string {
 	return r
 }
 
+// pkgVarUse lists the package-level variables of a package directory (all build-tag variants, deduplicated),
+// the assignments to them in function bodies other than init, and the method calls on them.
+func pkgVarUse(repo, dir string) (vars, writes, calls []string) {
+	files, _ := filepath.Glob(filepath.Join(repo, dir, "*.go"))
+	sort.Strings(files)
+	var parsed []*ast.File
+	names := map[string]bool{}
+	for _, fn := range files {
+		if strings.HasSuffix(fn, "_test.go") {
+			continue
+		}
+		f, err := parser.ParseFile(token.NewFileSet(), fn, nil, 0)
+		if err != nil {
+			continue
+		}
+		parsed = append(parsed, f)
+		for _, d := range f.Decls {
+			gd, ok := d.(*ast.GenDecl)
+			if !ok || gd.Tok != token.VAR {
+				continue
+			}
+			for _, s := range gd.Specs {
+				for _, n := range s.(*ast.ValueSpec).Names {
+					if !names[n.Name] && n.Name != "_" {
+						names[n.Name] = true
+						vars = append(vars, dir+"."+n.Name)
+					}
+				}
+			}
+		}
+	}
+	isPkgVar := func(e ast.Expr) (string, bool) {
+		for {
+			switch x := e.(type) {
+			case *ast.IndexExpr:
+				e = x.X
+				continue
+			case *ast.SelectorExpr:
+				e = x.X
+				continue
+			case *ast.StarExpr:
+				e = x.X
+				continue
+			case *ast.ParenExpr:
+				e = x.X
+				continue
+			case *ast.Ident:
+				if !names[x.Name] {
+					return "", false
+				}
+				// a local of the same name is resolved by the parser to its declaration inside the function
+				if x.Obj != nil {
+					if _, ok := x.Obj.Decl.(*ast.ValueSpec); !ok {
+						return "", false
+					}
+					if x.Obj.Kind != ast.Var {
+						return "", false
+					}
+				}
+				return x.Name, true
+			}
+			return "", false
+		}
+	}
+	seenW, seenC := map[string]bool{}, map[string]bool{}
+	for _, f := range parsed {
+		for _, d := range f.Decls {
+			fd, ok := d.(*ast.FuncDecl)
+			if !ok || fd.Body == nil || (fd.Name.Name == "init" && fd.Recv == nil) {
+				continue
+			}
+			fname := fd.Name.Name
+			locals := map[string]bool{}
+			ast.Inspect(fd.Body, func(n ast.Node) bool {
+				switch x := n.(type) {
+				case *ast.AssignStmt:
+					for _, l := range x.Lhs {
+						if id, ok := l.(*ast.Ident); ok && x.Tok == token.DEFINE {
+							locals[id.Name] = true
+							continue
+						}
+						if v, ok := isPkgVar(l); ok && !locals[v] {
+							k := dir + "." + v + "@" + fname
+							if !seenW[k] {
+								seenW[k] = true
+								writes = append(writes, k)
+							}
+						}
+					}
+				case *ast.IncDecStmt:
+					if v, ok := isPkgVar(x.X); ok && !locals[v] {
+						k := dir + "." + v + "@" + fname
+						if !seenW[k] {
+							seenW[k] = true
+							writes = append(writes, k)
+						}
+					}
+				case *ast.CallExpr:
+					if se, ok := x.Fun.(*ast.SelectorExpr); ok {
+						if id, ok := se.X.(*ast.Ident); ok && names[id.Name] && id.Name != "logg" && !locals[id.Name] {
+							if id.Obj == nil || id.Obj.Kind == ast.Var {
+								if id.Obj != nil {
+									if _, isSpec := id.Obj.Decl.(*ast.ValueSpec); !isSpec {
+										return true
+									}
+								}
+								k := dir + "." + id.Name + "." + se.Sel.Name + "@" + fname
+								if !seenC[k] {
+									seenC[k] = true
+									calls = append(calls, k)
+								}
+							}
+						}
+					}
+				}
+				return true
+			})
+		}
+	}
+	return
+}
+
 // panicSites counts explicit panic( calls, index and slice expressions per function of a file.
 func panicSites(repo, rel string) []string {
 	f := parseFile(repo, rel)
@@ -493,6 +615,46 @@ func main() {
 		return false
 	})
 	p("def batchCodes : List (String × Nat) := [%s]\n\n", strings.Join(bc, ", "))
+
+	// --- process-wide state (C19): package-level variables of the library, the functions that assign to them,
+	// the methods called on them (loggers excluded), and the first argument of every append in vm/runner.go
+	libDirs := []string{"vm", "state", "cache", "render", "engine", "persist", "resource", "db", "db/mem", "db/fs", "db/postgres", "asm", "lang", "logging"}
+	var allVars, allWrites, allCalls []string
+	for _, d := range libDirs {
+		v, w, cl := pkgVarUse(repo, d)
+		allVars = append(allVars, v...)
+		allWrites = append(allWrites, w...)
+		allCalls = append(allCalls, cl...)
+	}
+	q := func(l []string) string {
+		var r []string
+		for _, x := range l {
+			r = append(r, leanStr(x))
+		}
+		return strings.Join(r, ", ")
+	}
+	p("/-- package-level variables of the library packages -/\n")
+	p("def packageVars : List String := [%s]\n", q(allVars))
+	p("/-- assignments to them outside init: var@function -/\n")
+	p("def packageVarWrites : List String := [%s]\n", q(allWrites))
+	p("/-- methods called on them (loggers excluded): var.Method@function -/\n")
+	p("def packageVarCalls : List String := [%s]\n", q(allCalls))
+	var apps []string
+	rf := parseFile(repo, "vm/runner.go")
+	ast.Inspect(rf, func(n ast.Node) bool {
+		ce, ok := n.(*ast.CallExpr)
+		if !ok {
+			return true
+		}
+		if id, ok := ce.Fun.(*ast.Ident); ok && id.Name == "append" && len(ce.Args) > 0 {
+			var tb bytes.Buffer
+			printer.Fprint(&tb, token.NewFileSet(), ce.Args[0])
+			apps = append(apps, tb.String())
+		}
+		return true
+	})
+	p("/-- vm/runner.go: the slice every append extends -/\n")
+	p("def runnerAppends : List String := [%s]\n\n", q(apps))
 
 	p("end Vise.Facts\n")
 	if len(os.Args) < 3 || os.Args[2] != "inventory" {
